@@ -42,6 +42,8 @@ Fixpoint digs64_aux (n : nat) (d : Z) : list Z := match n with O => [] | S m => 
 Definition digs64 (d n : Z) : list Z := digs64_aux (Z.to_nat n) d.
 (* items whose key is value / 64 (the values written by bursts are key*64 + goroutine), written as the values alone *)
 Definition vit (xs : list Z) : list (Z * Z) := map (fun x => (Z.shiftr x 6, x)) xs.
+Definition hq (l : list Z) : list Z * list Z := (l, l).           (* kept slice unchanged *)
+Definition hp (a b : list Z) : list Z * list Z := (a, b).         (* copy at return, re-read at the end *)
 Definition rP : gout := None.                                  (* the call panicked *)
 Definition rU : gout := Some RUnit.
 Definition rM : gout := Some (RVal None).                      (* miss *)
@@ -69,7 +71,17 @@ Inductive case :=
   (* a SetIfAbsent-only burst on one fresh single cache: ng goroutines, each doing, for every key k of univ in turn,
      SetIfAbsent(k, k*64+g) (size g+1; tiny: 1) immediately followed by Get(k) or Peek(k).  obs[g][j] = the goroutine whose
      value g saw for univ[j] in that read (63 = a miss or a foreign value).  At quiescence: Exist/Peek of every key, snapshot. *)
-| CSia (v : variant) (cap0 : Z) (ng : Z) (univ : list Z) (obs : list (list Z)) (panicked : bool) (probe : list bprobe) (final : snap).
+| CSia (v : variant) (cap0 : Z) (ng : Z) (univ : list Z) (obs : list (list Z)) (panicked : bool) (probe : list bprobe) (final : snap)
+  (* a sequential history whose returned slices were kept by the caller (removed lists of SetAndGetRemoved, sampled Keys() and
+     Items() flattened to k1,v1,k2,v2,..): held = (deep copy taken when the call returned, the same slice re-read at the end) *)
+| CHeld (v : variant) (cap0 : Z) (steps : list sstep) (held : list (list Z * list Z))
+  (* concurrent SetAndGetRemoved only: ng goroutines insert the fresh keys lo..lo+m-1 (goroutine g takes those with
+     (k-lo) mod ng = g; value = key; size rsize), each keeping the removed lists it was given; at quiescence: per kept list
+     (copy at return, re-read after the barrier), and the snapshot *)
+| CRem (v : variant) (cap0 : Z) (lo m : Z) (lists : list (list Z * list Z)) (panicked : bool) (final : snap)
+  (* readers calling Stats() while writers Set / SetIfAbsent / SetAndGetRemoved / Delete items that all have size c:
+     reads[r] = the distinct answers reader r got, in order; snapshot at quiescence *)
+| CStat (v : variant) (cap0 c : Z) (reads : list (list stats)) (panicked : bool) (final : snap).
 
 (* ---------------- decidable equalities ---------------- *)
 Definition res_eqb (a b : res) : bool :=
@@ -330,6 +342,39 @@ Definition sia_dom (v : variant) (cap0 ng : Z) (univ : list Z) (obs : list (list
   inB cap0 && nodupb univ && (1 <=? ng) && (ng <=? 62) && (Z.of_nat (length obs) =? ng)
   && (Z.of_nat (length univ) * sia_size v (ng - 1) <=? cap0).
 
+(* ---------------- results the caller keeps ---------------- *)
+(* the cache is value-semantic: a slice it returned is the caller's and never changes afterwards *)
+Definition held_ok (held : list (list Z * list Z)) : bool := forallb (fun p => zlist_eqb (fst p) (snd p)) held.
+
+(* concurrent SetAndGetRemoved of pairwise distinct fresh keys: in EVERY linearisation each inserted value is reported removed
+   by exactly one call or is still cached (C04_Rem.v); the eviction counter counts the reported values *)
+Definition rsize (v : variant) (k : Z) : Z := bsize v (1 + k mod 3).
+Definition rem_ok (v : variant) (cap0 lo m : Z) (lists : list (list Z * list Z)) (panicked : bool) (sn : snap) : bool :=
+  let '(keys, items, s, t) := sn in
+  let '(len, sz, cp, ev) := s in
+  let removed := flat_map fst lists in
+  let all := removed ++ keys in
+  negb panicked && held_ok lists
+  && nodupb all && (Z.of_nat (length all) =? m) && forallb (fun x => (lo <=? x) && (x <? lo + m)) all
+  && list_eqb zz_eqb items (map (fun k => (k, k)) keys)
+  && stats_eqb s t && (len =? Z.of_nat (length keys)) && (cp =? cap0) && (ev =? Z.of_nat (length removed))
+  && (sz =? zsum (map (rsize v) keys)) && (0 <=? sz) && (sz <=? cap0).
+Definition rem_dom (cap0 lo m : Z) : bool := inB cap0 && (0 <=? lo) && (0 <=? m) && (lo + m <? B).
+
+(* ---------------- Stats() under concurrent writers, all items of one size ----------------
+   Stats() is one critical section, so each answer is the cache's state at some point of the linearisation; when every item
+   has size c every state has Size = c * Length <= Capacity (C04_Theorems.uniform_size), the capacity never changes, and the
+   eviction counter never decreases. *)
+Definition stat_one (v : variant) (cap0 c : Z) (s : stats) : bool :=
+  let '(len, sz, cp, ev) := s in (sz =? bsize v c * len) && (0 <=? len) && (sz <=? cap0) && (cp =? cap0) && (0 <=? ev).
+Fixpoint ev_mono (prev : Z) (l : list stats) : bool :=
+  match l with [] => true | (_, _, _, ev) :: r => (prev <=? ev) && ev_mono ev r end.
+Definition stat_ok (v : variant) (cap0 c : Z) (reads : list (list stats)) (panicked : bool) (sn : snap) : bool :=
+  let '(keys, items, s, t) := sn in
+  negb panicked && forallb (fun l => forallb (stat_one v cap0 c) l && ev_mono 0 l) reads
+  && stat_one v cap0 c s && stats_eqb s t && nodupb keys && zlist_eqb keys (map fst items)
+  && (let '(len, _, _, ev) := s in (len =? Z.of_nat (length keys)) && forallb (fun l => ev_mono 0 (l ++ [s])) reads).
+
 (* ---------------- the two functions the driver evaluates ---------------- *)
 Definition case_accept (c : case) : bool :=
   match c with
@@ -339,6 +384,9 @@ Definition case_accept (c : case) : bool :=
     (* a burst has no single model run to compare with: accepted = consistent with every linearisation's guarantees *)
   | CBurst v cap0 wide univ sizes progs panicked probe final => burst_ok v cap0 wide univ sizes progs panicked probe final
   | CSia v cap0 ng univ obs panicked probe final => sia_ok v cap0 ng univ obs panicked probe final
+  | CHeld v cap0 steps held => seq_accept v (new_lru cap0) steps && held_ok held
+  | CRem v cap0 lo m lists panicked final => rem_ok v cap0 lo m lists panicked final
+  | CStat v cap0 c reads panicked final => stat_ok v cap0 c reads panicked final
   end.
 
 (* outside the property's quantifier (negative or absurdly large sizes / capacities) nothing is claimed *)
@@ -352,6 +400,9 @@ Definition case_holds (c : case) : bool :=
       if burst_dom cap0 wide univ sizes progs then burst_ok v cap0 wide univ sizes progs panicked probe final else true
   | CSia v cap0 ng univ obs panicked probe final =>
       if sia_dom v cap0 ng univ obs then sia_ok v cap0 ng univ obs panicked probe final else true
+  | CHeld v cap0 steps held => if seq_dom cap0 steps then seq_holds v (new_istate cap0) steps && held_ok held else true
+  | CRem v cap0 lo m lists panicked final => if rem_dom cap0 lo m then rem_ok v cap0 lo m lists panicked final else true
+  | CStat v cap0 c reads panicked final => if inB cap0 && inB c then stat_ok v cap0 c reads panicked final else true
   end.
 
 (* ---------------- soundness ---------------- *)
@@ -436,7 +487,7 @@ Qed.
 Theorem case_sound : forall c, case_accept c = true -> case_holds c = true.
 Proof.
   intros [v cap0 steps|v capacity n tab univ steps|v cap0 evs final|v cap0 wide univ sizes progs panicked probe final
-         |v cap0 ng univ obs panicked probe final];
+         |v cap0 ng univ obs panicked probe final|v cap0 steps held|v cap0 lo m lists panicked final|v cap0 c reads panicked final];
     cbn [case_accept case_holds]; intros Ha.
   - destruct (seq_dom cap0 steps) eqn:Ed; [|reflexivity]. unfold seq_dom in Ed. apply andb_prop in Ed as [Hc Hd].
     apply inB_spec in Hc. change (new_istate cap0) with (abs (new_lru cap0)).
@@ -452,4 +503,9 @@ Proof.
     apply conc_sound; [apply new_MInv; exact Hc|exact Hd|exact Ha].
   - destruct (burst_dom cap0 wide univ sizes progs); [exact Ha|reflexivity].
   - destruct (sia_dom v cap0 ng univ obs); [exact Ha|reflexivity].
+  - destruct (seq_dom cap0 steps) eqn:Ed; [|reflexivity]. unfold seq_dom in Ed. apply andb_prop in Ed as [Hc Hd].
+    apply inB_spec in Hc. apply andb_prop in Ha as [Ha Hh]. rewrite Hh, andb_true_r. change (new_istate cap0) with (abs (new_lru cap0)).
+    apply seq_sound; [apply new_MInv; exact Hc|exact Hd|exact Ha].
+  - destruct (rem_dom cap0 lo m); [exact Ha|reflexivity].
+  - destruct (inB cap0 && inB c); [exact Ha|reflexivity].
 Qed.
